@@ -28,6 +28,9 @@ pub struct LuaEngine {
 /// Longest time a script may run (Redis' default lua-time-limit)
 const SCRIPT_TIME_LIMIT: Duration = Duration::from_secs(5);
 
+/// Deepest nesting of tables in a script's return value
+const LUA_REPLY_MAX_DEPTH: usize = 128;
+
 /// Most memory one script's Lua state may allocate
 const SCRIPT_MEMORY_LIMIT: usize = 512 * 1024 * 1024;
 
@@ -374,6 +377,15 @@ impl LuaEngine {
     }
     
     fn lua_value_to_resp(&self, value: LuaValue) -> RespFrame {
+        self.lua_value_to_resp_nested(value, 0)
+    }
+    
+    /// Conversion of a (possibly nested) Lua value; `depth` bounds the nesting, since a script can
+    /// return a table that contains itself
+    fn lua_value_to_resp_nested(&self, value: LuaValue, depth: usize) -> RespFrame {
+        if depth > LUA_REPLY_MAX_DEPTH {
+            return RespFrame::error("ERR reached lua stack limit");
+        }
         match value {
             LuaValue::Nil => RespFrame::BulkString(None),
             LuaValue::Boolean(b) => {
@@ -398,7 +410,7 @@ impl LuaEngine {
                 for i in 1.. {
                     match table.get::<LuaValue>(i) {
                         Ok(LuaValue::Nil) => break,
-                        Ok(value) => items.push(self.lua_value_to_resp(value)),
+                        Ok(value) => items.push(self.lua_value_to_resp_nested(value, depth + 1)),
                         Err(_) => break,
                     }
                 }
